@@ -2093,9 +2093,10 @@ class NumpyModel(object):
         if len(dims) != 2:
             raise Unsupported('memmap shape rank')
         N, D = dims
-        I.ctx.use_axiom('A-IO:np.memmap raises when offset + N*D*B exceeds the file size, else exposes the bytes in C order')
+        I.ctx.use_axiom('A-IO:np.memmap raises when offset + N*D*B exceeds the file size or the file is empty, else exposes the bytes in C order')
         fm.facts(I)
-        if I.ctx.branch(z3.Or(off + N * D * B > fm.size, off < 0, N < 0, D < 0)):
+        # (an empty file cannot be mapped at all, not even for an empty shape: found by the engine/CPython cross-check)
+        if I.ctx.branch(z3.Or(off + N * D * B > fm.size, off < 0, N < 0, D < 0, fm.size == 0)):
             raise_py('ValueError', 'mmap length is greater than file size')
         byte = fm.byte
 
